@@ -43,6 +43,8 @@ type FuncInfo struct {
 	Name string // pkgrel.(Recv).Name e.g. "index/scorch.(*Scorch).Close"
 
 	OrigDecl *ast.FuncDecl // the declaration as written, when Decl was normalised (see inline.go)
+
+	normalised bool // helpers / closures were expanded or struct locals taken apart in Decl
 }
 
 type undecided struct{ msg string }
@@ -167,6 +169,8 @@ func loadProg(repo string, overlayRoot string) *Prog {
 	p.normalise()
 	if os.Getenv("VERIF_NO_NORMALISE") == "" {
 		p.splitTuples()
+		p.scalarise()
+		p.propagateCopies()
 	}
 	for _, l := range normaliseLog {
 		fmt.Println("normalise:", l)
